@@ -138,6 +138,35 @@ def activateDir (h : Hash) (K : Int) (H sid : Bytes) (serverMode : Bool) (d : Di
   | .inbound => activate h K H sid serverMode .inbound n.remoteCipher n.remoteMac
   | .outbound => activate h K H sid serverMode .outbound n.localCipher n.localMac
 
+/-! ## `Transport._set_K_H`: the session identifier is pinned by the first key exchange -/
+
+/-- `self.K`, `self.H`, `self.session_id` (`none` = Python `None`, the value `__init__` stores) -/
+structure KexState where
+  K : Option Int
+  H : Option Bytes
+  sessionId : Option Bytes
+  deriving Repr, DecidableEq
+
+def KexState.init : KexState := { K := none, H := none, sessionId := none }
+
+/-- `_set_K_H(k, h)`.  `guarded` is the AST fact "the only assignment to `self.session_id` outside
+    `__init__` is `self.session_id = h` directly under `if self.session_id is None:`" (regenerated from
+    the source, `PV.Generated.C04.sessionIdGuarded`); without the guard every exchange would overwrite it. -/
+def setKH (guarded : Bool) (s : KexState) (k : Int) (h : Bytes) : KexState :=
+  { K := some k, H := some h,
+    sessionId := if guarded then (match s.sessionId with | none => some h | some x => some x) else some h }
+
+/-- a connection's key exchanges (initial kex, then every re-key), oldest first -/
+def runExchanges (guarded : Bool) (s : KexState) : List (Int × Bytes) → KexState
+  | [] => s
+  | (k, h) :: rest => runExchanges guarded (setKH guarded s k h) rest
+
+/-- `_compute_key(id, n)` on the transport's current `K`, `H`, `session_id` -/
+def stateKey (hf : Hash) (s : KexState) (letter : UInt8) (n : Nat) : Option Bytes :=
+  match s.K, s.H, s.sessionId with
+  | some k, some h, some sid => some (computeKey hf k h sid letter n)
+  | _, _, _ => none
+
 /-! ## toy hash (executable instance; identical to `pv/lib_kex.py: ToyHash`) -/
 
 def toyAcc (x : Bytes) : Nat :=
